@@ -168,7 +168,7 @@ Definition check_op_v (kp : bool) (colon rgb8 cshape : bool) (init : mstate) (s 
       then (Some (mkOs v' (os_last s) (os_pen s) (os_paused s) true), 0%nat) else (None, 6%nat)
   | OSetup alt =>
       let l' := fold_left (fun l cv => ls_set l (fst cv) (ctl_norm (fst cv) (snd cv))) (setup_controls alt) (os_last s) in
-      if eq (ms_of_vt v') (logical_ms init l') && attrs_eqb (v_sgr v') (v_sgr (os_vt s))
+      if (os_paused s || eq (ms_of_vt v') (logical_ms init l')) && attrs_eqb (v_sgr v') (v_sgr (os_vt s))
       then (Some (mkOs v' l' (os_pen s) (os_paused s) (os_stopped s)), 0%nat) else (None, 7%nat)
   end.
 
